@@ -339,6 +339,8 @@ enum CommandExecutionError {
     Killed { signal: i32 },
     CannotRun(io::Error),
     NotFound,
+    /// The command line does not fit the operating system's limits.
+    TooLarge,
     Unknown,
 }
 
@@ -351,6 +353,7 @@ impl Display for CommandExecutionError {
             }
             Self::CannotRun(err) => write!(f, "Command could not be run: {err}"),
             Self::NotFound => write!(f, "Command not found"),
+            Self::TooLarge => write!(f, "Argument too large"),
             Self::Unknown => write!(f, "Unknown error running command"),
         }
     }
@@ -443,6 +446,20 @@ impl CommandBuilder<'_> {
                 .iter()
                 .map(|arg| replace_all(arg, replace_str, replacement))
                 .collect();
+
+            // The limiters were asked before the line was put in: what is handed
+            // to exec must pass the operating system's limits as it is now.
+            let mut system_limits = LimiterCollection::new();
+            system_limits.add(MaxCharsCommandSizeLimiter::new_system(&self.options.env));
+            for arg in std::iter::once(entry_point).chain(initial_args.iter().map(|a| a.as_os_str())) {
+                let arg = Argument {
+                    arg: arg.to_owned(),
+                    kind: ArgumentKind::Initial,
+                };
+                if system_limits.try_arg(arg).is_err() {
+                    return Err(CommandExecutionError::TooLarge);
+                }
+            }
 
             command
                 .args(&initial_args)
@@ -1151,6 +1168,7 @@ pub fn xargs_main(args: &[&str]) -> i32 {
                     CommandExecutionError::Killed { .. } => 125,
                     CommandExecutionError::CannotRun(_) => 126,
                     CommandExecutionError::NotFound => 127,
+                    CommandExecutionError::TooLarge => 1,
                     CommandExecutionError::Unknown => 1,
                 }
             } else {
